@@ -330,6 +330,7 @@ func init() {
 		}
 		return encMoves(out)
 	}
+	opTable["scanon"] = opTable["canon"] // second opinion: the list-level algorithm of the Lean side against the real code
 	opTable["canonchk"] = func(s *Session, a []string) string {
 		return canonCheck(atoi(a[0]), parseMoves(a[1:]))
 	}
